@@ -15,7 +15,7 @@ ID = 'C08'
 LEVEL = 'exploration'
 RUNS = {'quick': 40000, 'thorough': 800000}
 CHUNK = 100
-PROBES = ['unfinished_earlier_call_same_syscall', 'empty_path_vnode_zero', 'timestamp_ties_inside_item', 'lookup_len_boundary', 'lookup_multi_chunk', 'lookup_none_fragment', 'gstr_multi_chunk', 'gstr_none_fragment',
+PROBES = ['complete_item_between_chunks', 'stale_start_reopened_inside_item', 'unfinished_earlier_call_same_syscall', 'empty_path_vnode_zero', 'timestamp_ties_inside_item', 'lookup_len_boundary', 'lookup_multi_chunk', 'lookup_none_fragment', 'gstr_multi_chunk', 'gstr_none_fragment',
           'tname_two_records', 'interrupt_between_chunks', 'single_between_chunks', 'other_thread_between_chunks',
           'other_thread_half_lookup_between', 'window_more_lookups_than_paths', 'window_fewer_lookups_than_paths',
           'window_exact_lookups', 'two_path_syscall', 'multibyte_across_boundary', 'len_184', 'len_0']
@@ -29,9 +29,14 @@ ASSUMPTIONS = ['the kernel encoders (kdebug_vfs_lookup, kernel_debug_string_inte
                'thread names are at most 64 bytes (MAXTHREADNAMESIZE), texts are valid UTF-8 without NUL']
 
 
-def _between(rng, tid=None):
+def _between(rng, tid=None, host='sys'):
     r = rng.random()
     cat = worlds.catalog()
+    if r < 0.12 and host != 'tname':
+        # a complete two-record item of another kind (a thread name announced between the chunks of a string or a lookup)
+        return {'k': 'tname', 'text': rng.text(rng.pick([33, 40, 60]), multibyte=False), 'prev': False}
+    if r < 0.2 and host != 'gstr':
+        return {'k': 'gstr', 'id': 900000 + rng.randrange(1000), 'dbgid': rng.randrange(1 << 20), 'text': rng.text(rng.pick([17, 30, 48, 49]))}
     if r < 0.5:
         s, e = domains.draw(rng, 'INTERRUPT')
         return {'k': 'sys', 'name': 'INTERRUPT', 's': s, 'e': e, 'in': []}
@@ -50,9 +55,20 @@ def _decorate(rng, op, nchunks_est, tid=None):
     if rng.chance(0.45):
         btw = {}
         for _ in range(rng.randint(1, 2)):
-            btw.setdefault(str(rng.randrange(0, max(1, nchunks_est))), []).append(_between(rng, tid))
+            btw.setdefault(str(rng.randrange(0, max(1, nchunks_est))), []).append(_between(rng, tid, op['k']))
         op['between'] = btw
     return op
+
+
+def _stale_start(rng, host):
+    """A START-qualified record of an unrelated code whose END never comes; the same code starts again later (inside the item):
+    the window table of the item (lookups and calls: events; strings and names: trace class) holds the stale entry meanwhile."""
+    ids = worlds.catalog()['ids']
+    if host in ('gstr', 'tname'):
+        eid = ids[rng.pick(['TRACE_DATA_THREAD_TERMINATE', 'TRACE_DATA_EXEC', 'TRACE_STRING_PROC_EXIT'])]
+    else:
+        eid = rng.pick([ids['INTERRUPT'], ids['MACH_vmfault'], rng.pick(worlds.catalog()['undecoded'])[0]])
+    return {'k': 'raw', 'id': eid, 'q': 1, 'a': [1, 2, 3, 4]}
 
 
 def generate(rng, index, tier):
@@ -115,6 +131,20 @@ def generate(rng, index, tier):
                 n = rng.pick([1, 31, 32, 33, 40, 63, 64])
                 t = {'k': 'tname', 'text': rng.text(n), 'prev': rng.chance(0.25)}
                 ops.append(_decorate(rng, t, 2))
+            if rng.chance(0.1) and ops and ops[-1]['k'] in ('sys', 'lookup', 'gstr', 'tname') and not ops[-1].get('noend'):
+                item = ops[-1]
+                st = _stale_start(rng, item['k'])
+                ops.insert(len(ops) - 1, st)
+                again = dict(st)
+                if item['k'] == 'sys':
+                    item['in'].insert(rng.randrange(len(item['in']) + 1), again)
+                else:
+                    nb = len((item.get('path') or item.get('text') or '').encode())
+                    nch = 1 + max(0, (nb - (24 if item['k'] == 'lookup' else 16 if item['k'] == 'gstr' else 32) + 31) // 32)
+                    if nch >= 2:
+                        item.setdefault('between', {}).setdefault(str(rng.randrange(nch - 1)), []).append(again)
+                    else:
+                        ops.remove(st)
             if rng.chance(0.2):
                 ops.append(_between(rng))
         threads.append({'tid': tid, 'ops': ops})
@@ -215,9 +245,14 @@ def execute(scn):
             viols.append({'tag': 'continuation-record-produced-trace', 'sig': type(ts[0]).__name__,
                           'detail': 'record %s (a continuation chunk) begins trace %r' % (o, str(ts[0]))})
     items = _collect_items(scn['threads'])
+    if any(op['k'] in ('tname', 'gstr') and '.b' in o_ for o_, op, _e in items):
+        bump('probe:complete_item_between_chunks')
+    if any(r['q'] == 1 and r['o'].endswith('/r') and r['a'] == [1, 2, 3, 4] and ('.b' in r['o'] or r['o'].count('.') >= 2) for r in stream):
+        bump('probe:stale_start_reopened_inside_item')
     shapes = set()
     nontrivial = False
     expected_strings = {}
+    string_done = {}
     last_tname = {}
     tid_of_thread = {('T%d' % i): th['tid'] for i, th in enumerate(scn['threads'])}
     for o, op, encl in items:
@@ -287,7 +322,11 @@ def execute(scn):
             if nchunks >= 3:
                 bump('probe:gstr_none_fragment')
             if op['text']:
-                expected_strings[op['id']] = op['text']      # (an empty string is reported, but defines nothing to look up)
+                # (an empty string is reported, but defines nothing to look up); when an id is announced more than once the
+                # announcement completed last in the stream stands
+                if op['id'] not in string_done or string_done[op['id']] < hi:
+                    string_done[op['id']] = hi
+                    expected_strings[op['id']] = op['text']
             good = [t for t in got if type(t).__name__ == gname]
             if len(good) != 1 or len(got) != 1:
                 viols.append({'tag': 'string-trace-count', 'sig': 'n=%d' % len(good),
@@ -360,11 +399,11 @@ def execute(scn):
             shapes.add(('sys', P, L))
     # totals: exactly one lookup trace per lookup op, one string trace per string
     nl = sum(1 for t in traces if type(t).__name__ == lookup_name)
-    wl = sum(1 for _o, op, _e in items if op['k'] == 'lookup')
+    wl = sum(1 for o_, op, _e in items if op['k'] == 'lookup' and o_ + '/c0' in pos_of)      # (items that reached the stream)
     if nl != wl and not any(v['tag'].startswith('lookup-trace') or v['tag'].startswith('continuation') for v in viols):
         viols.append({'tag': 'lookup-trace-total', 'sig': 'more' if nl > wl else 'fewer', 'detail': '%d lookup traces for %d lookups' % (nl, wl)})
     ng = sum(1 for t in traces if type(t).__name__ == gname)
-    wg = sum(1 for _o, op, _e in items if op['k'] == 'gstr')
+    wg = sum(1 for o_, op, _e in items if op['k'] == 'gstr' and o_ + '/c0' in pos_of)
     if ng != wg and not any(v['tag'].startswith('string-trace') or v['tag'].startswith('continuation') for v in viols):
         viols.append({'tag': 'string-trace-total', 'sig': 'more' if ng > wg else 'fewer', 'detail': '%d string traces for %d strings' % (ng, wg)})
     if parser.global_strings != expected_strings:
